@@ -26,6 +26,10 @@ pub struct UtcDateTime(
 
 impl Default for UtcDateTime {
     fn default() -> Self {
+        #[cfg(sos_verif)]
+        if let Some(value) = verif_clock::get() {
+            return Self(value);
+        }
         Self(OffsetDateTime::now_utc())
     }
 }
@@ -158,5 +162,27 @@ impl From<OffsetDateTime> for UtcDateTime {
 impl From<UtcDateTime> for OffsetDateTime {
     fn from(value: UtcDateTime) -> Self {
         value.0
+    }
+}
+
+/// Clock override used by the verification harness.
+///
+/// Only compiled with `--cfg sos_verif`.
+#[cfg(sos_verif)]
+#[doc(hidden)]
+pub mod verif_clock {
+    use std::sync::Mutex;
+    use time::OffsetDateTime;
+
+    static CLOCK: Mutex<Option<OffsetDateTime>> = Mutex::new(None);
+
+    /// Set or clear the process-wide clock override.
+    pub fn set(value: Option<OffsetDateTime>) {
+        *CLOCK.lock().unwrap() = value;
+    }
+
+    /// Current clock override.
+    pub fn get() -> Option<OffsetDateTime> {
+        *CLOCK.lock().unwrap()
     }
 }
